@@ -291,6 +291,8 @@ def scenario(idx, classes, edges, statements, methods, defs, abstract=(), shapes
 COMMON = r'''
 #include <yorel/yomm2/keywords.hpp>
 #include <string>
+#include <csignal>
+#include <unistd.h>
 static bool g_via_next = false;
 struct ErrRec { int status = 0; std::size_t arity = 0; yorel::yomm2::type_id types[16] = {}; };
 static ErrRec g_err;
@@ -352,6 +354,11 @@ def program(name, scenarios, staged=False):
         for sc, (_, fns) in zip(scenarios, parts):
             o.append("namespace g%d {\nvoid run() {%s" % (sc[0], fns))
     o.append("int main() {")
+    # line-buffered log, and a last word when the program dies: the trace then shows where
+    o.append("    std::setvbuf(stdout, nullptr, _IOLBF, 1 << 16);")
+    o.append("    for (int sig : {SIGSEGV, SIGABRT, SIGBUS, SIGFPE}) std::signal(sig, [](int s) {")
+    o.append('        char m[] = "{\\"e\\":\\"died\\",\\"sig\\":00}\\n"; m[18] = char(48 + s / 10); m[19] = char(48 + s % 10);')
+    o.append("        if (write(1, m, sizeof m - 1)) {} _exit(128 + s); });")
     if staged:
         o.append('    std::printf("{\\"e\\":\\"reset\\",\\"script\\":\\"%s.s%%d\\",\\"bindings\\":[\\"gen\\"]}\\n", VERIF_STAGE);' % name)
     else:
